@@ -301,6 +301,7 @@ int SimulateZ80::get_reg_id(const char * reg_string)
     {
       break;
     }
+    if (ndx >= (int)sizeof(rstr) - 1) { return -1; }
     rstr[ndx++] = *reg_string;
     ++reg_string;
   }
@@ -438,6 +439,8 @@ int SimulateZ80::dump_ram(int start, int end)
   {
     end = sizeof(io_mem) - 1;   // limit IO space
   }
+
+  if (start < 0) { start = 0; }
 
   for (n = start; n <= end; ++n)
   {
